@@ -165,6 +165,29 @@ func init() {
 				}
 			}
 		}
+		// a partial with a layout where the partial's body leaves something for the layout to use
+		// (a contentFor block): the layout must see it, as it does when both are written inline
+		for _, t := range []struct {
+			parts map[string]string
+			tmpl  string
+			want  string
+		}{
+			{map[string]string{"pg": `<% contentFor("side") { %>[S:<%= who %>:<%= n %>]<% } %>main-<%= who %>`, "frame": `<F><%= yield %>|<%= contentOf("side", {n: 7}) %></F>`},
+				`A<%= partial("pg", {who: "mark", layout: "frame"}) %>B`, "A<F>main-mark|[S:mark:7]</F>B"},
+			{map[string]string{"pg": `<% contentFor("side") { %>x<% } %>m`, "frame": `<%= contentOf("side") %><%= yield %><%= contentOf("side") %>`},
+				`<%= partial("pg", {layout: "frame"}) %>|<%= partial("pg", {layout: "frame"}) %>`, "xmx|xmx"},
+			{map[string]string{"pg": `<% contentFor("side") { %>x<% } %>m`, "frame": `{<%= yield %>}`},
+				`<%= partial("pg", {layout: "frame"}) %><%= contentOf("side") { %>default<% } %>`, "{m}default"},
+			{map[string]string{"pg": `<% contentFor("t") { %>T<%= s %><% } %>b`, "frame": `<%= contentOf("t") { %>none<% } %>/<%= yield %>`, "outer": `<%= partial("pg", {layout: "frame"}) %>`},
+				`<%= partial("outer") %>`, "Ta&lt;b/b"},
+		} {
+			c := RCase{Tmpl: t.tmpl, Binds: c17binds(), Parts: t.parts}
+			o := e.addRenderCase("partial-layout-content", c)
+			e.Distinct(t.tmpl + t.parts["pg"])
+			if o.Class != "OK" || o.Out != t.want {
+				e.Violate("c17-partial", fmt.Sprintf("%s with parts %v rendered %q (%s %s), inline rendering gives %q", t.tmpl, t.parts, o.Out, o.Class, o.Msg, t.want), map[string]interface{}{"case": c, "observed": o})
+			}
+		}
 		// values whose printed form depends on the scope they are printed in (time.Time with
 		// TIME_FORMAT): the block / partial must print them as the inline source does in the
 		// equivalent scope.  Go-only values: decided by the two runs of the real engine.
